@@ -254,3 +254,9 @@ package netsample
 //@ requires a.Aggregator != nil
 //@ at call a.Aggregator.Report assert [the-reported-sample] arg(s) == box(s0)
 //@ ensures calls(a.Aggregator.Report) == 1
+
+// A processed sample goes back into the package's pool of samples.
+//@ func releaseSample
+//@ props C10 C11
+//@ env pooltype(samplePool, *Sample)
+//@ modifies nothing
